@@ -47,16 +47,15 @@ Theorem C18_is_equal_number :
 Proof. exact is_equal_number. Qed.
 Print Assumptions C18_is_equal_number.
 
-(* ConstrainedQuadraticModel.is_equal: total between two CQMs ... *)
-Theorem C18_cqm_is_equal_total_on_cqm : forall c d, exists b, cqm_is_equal_code c (OCqm d) = Val b.
-Proof. exact cqm_is_equal_total_on_cqm. Qed.
-Print Assumptions C18_cqm_is_equal_total_on_cqm.
+(* ConstrainedQuadraticModel.is_equal never raises either: a boolean for a CQM, False for
+   anything else (number, BQM, QM, view, foreign object) *)
+Theorem C18_cqm_is_equal_total : forall c o, exists b, cqm_is_equal_code c o = Val b.
+Proof. exact cqm_is_equal_total. Qed.
+Print Assumptions C18_cqm_is_equal_total.
 
-(* ... but NOT total: it raises AttributeError for anything that is not a CQM (a genuine
-   defect of the implementation, confirmed on the real code) *)
-Theorem C18_cqm_is_equal_total_refuted : exists c o, cqm_is_equal_code c o = Raise AttrErr.
-Proof. exact cqm_is_equal_total_refuted. Qed.
-Print Assumptions C18_cqm_is_equal_total_refuted.
+Theorem C18_cqm_is_equal_non_cqm : forall c o, (forall d, o <> OCqm d) -> cqm_is_equal_code c o = Val false.
+Proof. exact cqm_is_equal_non_cqm. Qed.
+Print Assumptions C18_cqm_is_equal_non_cqm.
 
 (* same objective, same constraint labels and, per label, same sense, left-hand side and
    right-hand side - irrespective of the order of the constraints *)
